@@ -167,6 +167,7 @@ func runC04(w *World) {
 		}
 		causes = append(causes, cause)
 		w.Probe("teardown:" + cause)
+		quietRemote := false
 		life := time.Duration(w.Range(0, 12000, "lifems")) * time.Millisecond
 		end := w.Now() + life
 		stop := func() bool { return w.Now() >= end }
@@ -197,6 +198,9 @@ func runC04(w *World) {
 		w.Go("remote-updates", func() {
 			for i, n := 0, w.Draw(4, "nrupd"); i < n && !c.LocalClosed() && !c.RemoteClosed(); i++ {
 				w.Sleep(time.Duration(w.Range(0, 3000, "rupdms")) * time.Millisecond)
+				if quietRemote {
+					return
+				}
 				c.Deliver(MkFrame(MsgUpdate, []byte{0, 0, 0, byte(i)}))
 			}
 		})
@@ -206,6 +210,18 @@ func runC04(w *World) {
 			c.FIN()
 		} else {
 			r := p.Speaker.KeepAlive(c, o, stop)
+			if r == "stopped" && hold == 0 && (cause == "fin" || cause == "rst") && !c.LocalClosed() && w.Chance(1, 2, "stall-for-good") {
+				// The remote stops reading for good and then ends the connection. With a
+				// zero hold time corebgp itself has nothing to write, so only WriteUpdate
+				// callers can be stuck in a write: the teardown must release them.
+				// (no UPDATE of the remote is in flight or follows: a handler that writes would
+				// block the FSM goroutine itself, which then cannot notice the end either)
+				quietRemote = true
+				w.Quiesce()
+				c.StallWrites(Pick(w, "stallwindow2", 0, 7, 19, 100, 5000))
+				w.Sleep(time.Duration(w.Range(0, 3000, "stall2ms")) * time.Millisecond)
+				w.Probe("remote-stops-reading-for-good-then-ends")
+			}
 			if r == "stopped" {
 				switch cause {
 				case "fin":
